@@ -11,14 +11,14 @@ Ltac step := cbn [sq exec exec0 run run1 call1 g_err g_st g_vars g_pos g_lim g_b
                   set_st set_vars set_pos set_lim set_buf set_data set_dlen set_ws set_err setl phys
                   look getv setv slot
                   v_x v_z v_need v_n v_now v_sec v_num v_length v_size v_i v_o v_s v_v v_offset v_timestamp
-                  offs tss used hwm img st_offs st_tss st_used st_hwm st_img fst snd].
+                  offs tss used hwm img st_offs st_tss st_used st_hwm st_img vars0].
 
 Ltac lstep := lazy beta iota zeta delta
                  [sq exec exec0 run run1 call1 g_err g_st g_vars g_pos g_lim g_buf g_data g_dlen g_ws g_now
                   set_st set_vars set_pos set_lim set_buf set_data set_dlen set_ws set_err setl phys
                   look getv setv slot
                   v_x v_z v_need v_n v_now v_sec v_num v_length v_size v_i v_o v_s v_v v_offset v_timestamp
-                  offs tss used hwm img st_offs st_tss st_used st_hwm st_img fst snd].
+                  offs tss used hwm img st_offs st_tss st_used st_hwm st_img vars0].
 
 Lemma Zlt0_ofN (n : N) : (Z.of_N n <? 0)%Z = false. Proof. lia. Qed.
 
@@ -129,9 +129,10 @@ Ltac mark_loop_tac :=
       assert ((Z.of_N n + Z.of_N j <? 0)%Z = false) as -> by lia;
       replace (Z.to_N (Z.of_N n + Z.of_N j)) with (n + j) by lia;
       rewrite (ws32 (Z.of_N j + 1)) by lia; replace (Z.of_N j + 1)%Z with (Z.of_N (j + 1)) by lia;
-      let IH' := fresh in
-      pose proof (IH (j + 1) (setB u (n + j) _) ltac:(lia)) as IH';
-      replace (n + (j + 1)) with (n + j + 1) in IH' by lia; exact IH' end ].
+      match goal with |- context [setB u (n + j) ?bb] =>
+        let IH' := fresh in
+        pose proof (IH (j + 1) (setB u (n + j) bb) ltac:(lia)) as IH';
+        replace (n + (j + 1)) with (n + j + 1) in IH' by lia; exact IH' end end ].
 
 Lemma mark_loop_now dc ret k txt b σb rb n cnt :
   g_err σb = false -> v_now rb = Z.of_N cnt -> v_n rb = Z.of_N n -> n + cnt < 2^31 ->
@@ -193,6 +194,315 @@ Lemma tail_eq σ n : g_err σ = false -> v_n (g_vars σ) = Z.of_N n -> n < 2^31 
            ((g_ws σ ++ [mkwr (4096 * n) (be 4 (lenN (g_data σ)))]) ++ [mkwr (4096 * n + 4) (g_data σ)])
            false (g_now σ)).
 Proof.
-  destruct σ as [[o t u h f] vs pos lim buf dat dlen ws err nw]. cbn [g_err g_vars g_data].
-  intros He Hn Hb Hd. subst err. unfold ws_tail, C14gen.WriteSector. cbn [skipn].
-  Time lstep.
+  dσ σ. intros He Hn Hb Hd. subst err vn. unfold ws_tail, C14gen.WriteSector. cbn [skipn]. lstep.
+  rewrite tie_seek_w by exact Hb. rewrite Zlt0_ofN, N2Z.id.
+  unfold pat. rewrite !flen_lenN. rewrite tie_written_length by exact Hd. rewrite N2Z.id.
+  replace (lenN (be 4 (lenN dat))) with 4 by (unfold lenN at 1; rewrite be_length; reflexivity). reflexivity.
+Qed.
+
+(* one statement at a time, the rest of the body kept folded *)
+Ltac lstep0 := lazy beta iota zeta delta
+                 [sq exec g_err g_st g_vars g_pos g_lim g_buf g_data g_dlen g_ws g_now
+                  set_st set_vars set_pos set_lim set_buf set_data set_dlen set_ws set_err setl phys
+                  look getv setv slot
+                  v_x v_z v_need v_n v_now v_sec v_num v_length v_size v_i v_o v_s v_v v_offset v_timestamp
+                  offs tss used hwm img st_offs st_tss st_used st_hwm st_img vars0].
+Ltac peel :=
+  match goal with |- context [sq ?f (?s :: ?rest) ?k ?σ] =>
+    change (sq f (s :: rest) k σ) with (f s (sq f rest k) σ);
+    let K := fresh "K" in set (K := sq f rest k); cbv beta end.
+
+Lemma exec_for dc kind i t hi body ret k σ : g_err σ = false ->
+  exec dc (SFor kind i t hi body) ret k σ =
+  for_loop (match kind with
+            | LCounted => Datatypes.S (Z.to_nat (hi (look σ)))
+            | LScan => Z.to_nat (Z.of_N (hwm (g_st σ)) + hi (look σ) + 2)
+            end) i hi (sq (fun s k => exec dc s ret k) body) k (setl σ i 0%Z).
+Proof. intros He. cbn [exec]. rewrite He. reflexivity. Qed.
+
+Lemma alloc_eq k o t u h f vsec vnum vlength vsize vi vo vs vv voffset vtimestamp pos lim buf dat dlen ws nw
+      (x z n cur need : N) :
+  x < 32 -> z < 32 -> need < 256 -> cur < 256 -> n < 2^24 -> h <= 2^23 -> nw < 2^63 ->
+  sq (fun s k => exec call1 s RFin k) ws_alloc k
+     (mkist (Build_st o t u h f)
+            (mkvars (Z.of_N x) (Z.of_N z) (Z.of_N need) (Z.of_N n) (Z.of_N cur) vsec vnum vlength vsize vi vo vs vv voffset vtimestamp)
+            pos lim buf dat dlen ws false nw) =
+  match find_space (N.to_nat (h + need + 2)) (mark u n (N.to_nat cur) false) need 0 0 with
+  | None => RNoFuel
+  | Some n' =>
+      if sector_limit <=? n' + need then ROutside else
+      k (mkist (Build_st (setN o (idx x z) (n' * 256 + need)) (setN t (idx x z) (nw mod 2^32))
+                         (mark (mark u n (N.to_nat cur) false) n' (N.to_nat need) true) (N.max h (n' + need))
+                         (mkwr (4096 + 4 * idx x z) (be 4 (nw mod 2^32)) :: mkwr (4 * idx x z) (be 4 (n' * 256 + need)) :: f))
+               (mkvars (Z.of_N x) (Z.of_N z) (Z.of_N need) (Z.of_N n') (Z.of_N need) vsec vnum vlength vsize (Z.of_N need)
+                       vo vs vv voffset (wrap_s 64 (Z.of_N nw)))
+               None lim (be 4 (nw mod 2^32)) dat dlen
+               ((ws ++ [mkwr (4 * idx x z) (be 4 (n' * 256 + need))]) ++ [mkwr (4096 + 4 * idx x z) (be 4 (nw mod 2^32))])
+               false nw)
+  end.
+Proof.
+  intros Hx Hz Hneed Hcur Hn Hh Hnw.
+  change (2^24) with 16777216 in Hn. change (2^23) with 8388608 in Hh.
+  unfold ws_alloc, C14gen.WriteSector. cbn [nth_error].
+  (* free the old run *)
+  peel. rewrite exec_for by reflexivity.
+  etransitivity.
+  { apply (mark_loop_now call1 RFin K "r.sectors[n+i] = false" false
+             (mkist (Build_st o t u h f)
+                (mkvars (Z.of_N x) (Z.of_N z) (Z.of_N need) (Z.of_N n) (Z.of_N cur) vsec vnum vlength vsize vi vo vs vv voffset vtimestamp)
+                pos lim buf dat dlen ws false nw)
+             (mkvars (Z.of_N x) (Z.of_N z) (Z.of_N need) (Z.of_N n) (Z.of_N cur) vsec vnum vlength vsize vi vo vs vv voffset vtimestamp)
+             n cur eq_refl eq_refl eq_refl ltac:(change (2^31) with 2147483648; lia) (Z.to_nat (Z.of_N cur)) 0 u ltac:(lia)). }
+  rewrite N.add_0_r. replace (Z.to_nat (Z.of_N cur)) with (N.to_nat cur) by lia.
+  (* findSpace *)
+  subst K. peel. lstep0. unfold c14_WriteSector_findSpace_arg.
+  rewrite call_findSpace by (cbn [g_err g_st hwm]; try reflexivity; change (2^31 - 1) with 2147483647; lia).
+  cbn [g_st hwm used].
+  destruct (find_space (N.to_nat (h + need + 2)) (mark u n (N.to_nat cur) false) need 0 0) as [n'|] eqn:Efs.
+  2: reflexivity.
+  lstep0. rewrite ?N2Z.id.
+  destruct (sector_limit <=? n' + need) eqn:Elim.
+  1: reflexivity.
+  assert (Hn' : n' + need < 8388608) by (unfold sector_limit in Elim; change (2^23) with 8388608 in Elim; lia).
+  (* now = need *)
+  subst K. peel. lstep0. unfold c14_WriteSector_now.
+  (* mark the new run *)
+  subst K. peel. rewrite exec_for by reflexivity.
+  etransitivity.
+  { apply (mark_loop_need call1 RFin K "r.sectors[n+i] = true" true
+             (mkist (Build_st o t (mark u n (N.to_nat cur) false) (N.max h (n' + need)) f)
+                (mkvars (Z.of_N x) (Z.of_N z) (Z.of_N need) (Z.of_N n') (Z.of_N need) vsec vnum vlength vsize (Z.of_N cur) vo vs vv voffset vtimestamp)
+                pos lim buf dat dlen ws false nw)
+             (mkvars (Z.of_N x) (Z.of_N z) (Z.of_N need) (Z.of_N n') (Z.of_N need) vsec vnum vlength vsize (Z.of_N cur) vo vs vv voffset vtimestamp)
+             n' need eq_refl eq_refl eq_refl ltac:(change (2^31) with 2147483648; lia) (Z.to_nat (Z.of_N need)) 0
+             (mark u n (N.to_nat cur) false) ltac:(lia)). }
+  rewrite N.add_0_r. replace (Z.to_nat (Z.of_N need)) with (N.to_nat need) by lia.
+  (* r.offsets[z][x] = ... *)
+  subst K. peel. lstep0. rewrite ?N2Z.id.
+  unfold pat at 1. rewrite tie_new_offset by (try (change (2^23) with 8388608); lia). rewrite ?N2Z.id.
+  (* timestamp := time.Now().Unix() *)
+  subst K. peel. lstep0.
+  (* setHead *)
+  subst K. peel. lstep0. rewrite ?N2Z.id.
+  rewrite (call_setHead _ x z) by (cbn [g_err g_vars v_x v_z]; try reflexivity; assumption).
+  cbn [g_st g_vars g_lim g_data g_dlen g_ws g_now img].
+  unfold elem. rewrite getN_set_same.
+  assert (Ho' : n' * 256 + need < 2^32) by (change (2^32) with 4294967296; lia).
+  rewrite (N.mod_small _ _ Ho'). unfold pat. rewrite tie_head_offset by exact Ho'. rewrite ?N2Z.id.
+  rewrite tie_timestamp_head by exact Hnw. rewrite ?N2Z.id.
+  (* if err != nil; r.Timestamps[z][x] = int32(timestamp) *)
+  subst K. peel. lstep0. subst K. peel. lstep0. rewrite ?N2Z.id.
+  unfold pat. rewrite tie_timestamp_mem by exact Hnw. rewrite ?N2Z.id.
+  subst K. cbn [sq].
+  rewrite wu32 by (change (2^32) with 4294967296 in Ho'; lia). rewrite N2Z.id. reflexivity.
+Qed.
+
+Lemma exec_if dc t c th el ret k σ : g_err σ = false ->
+  exec dc (SIf t c th el) ret k σ =
+  if c (look σ) then sq (fun s k => exec dc s ret k) th k σ else sq (fun s k => exec dc s ret k) el k σ.
+Proof. intros He. cbn [exec]. rewrite He. reflexivity. Qed.
+
+Lemma sec_of_lt o : sec_of o < 2^24.
+Proof. unfold sec_of. apply N.mod_lt. discriminate. Qed.
+Lemma cnt_of_lt' o : cnt_of o < 256.
+Proof. unfold cnt_of. apply N.mod_lt. discriminate. Qed.
+
+(* THE interpretation theorem for WriteSector: for every Region state, coordinates, payload and clock value,
+   running the translated body statement by statement yields exactly the model's new state, its list of
+   physical writes IN THE SAME ORDER, and its outcome. *)
+Theorem interp_write_eq s x z d now :
+  x < 32 -> z < 32 -> lenN d + 4 + 4095 < 2^43 -> hwm s <= sector_limit -> now < 2^63 ->
+  interp_write s x z d now = Some (write_sector s x z d now).
+Proof.
+  intros Hx Hz Hd Hh Hnow. unfold sector_limit in Hh. destruct s as [o t u h f]. cbn [hwm] in Hh.
+  unfold interp_write, run1, run, init, write_sector. cbv zeta. cbn [offs tss used hwm img].
+  rewrite !flen_lenN.
+  set (need := (lenN d + 4 + 4095) / 4096). set (ow := getN o (idx x z)).
+  unfold C14gen.WriteSector.
+  (* need := ... *)
+  peel. lstep0. rewrite flen_lenN, tie_need by exact Hd. fold need.
+  (* n, now := sectorLoc(r.offsets[z][x]) *)
+  subst K. peel. lstep0. rewrite !N2Z.id. unfold c14_WriteSector_loc_arg, elem. fold ow. rewrite tie_loc. cbn [fst snd].
+  (* if need >= 256 *)
+  subst K. peel. lstep0. rewrite tie_too_large.
+  destruct (256 <=? need) eqn:Ebig; [reflexivity|].
+  assert (Hneed : need < 256) by lia.
+  assert (Hdl : lenN d < 2^32) by (change (2^32) with 4294967296; unfold need in Hneed; lia).
+  (* if n != 0 && now == need *)
+  subst K. peel.
+  match goal with |- context [exec call1 (SIf ?t ?c [] ?el) RFin ?K ?σ] => change el with ws_alloc end.
+  rewrite exec_if by reflexivity.
+  lazy beta iota delta [look getv g_vars v_n v_now v_need].
+  rewrite tie_inplace. cbn [sq].
+  pose proof (sec_of_lt ow) as Hsec. pose proof (cnt_of_lt' ow) as Hcnt.
+  destruct (negb (sec_of ow =? 0) && (cnt_of ow =? need)) eqn:Einp.
+  - (* in place *)
+    subst K.
+    rewrite (tail_eq _ (sec_of ow)) by (cbn [g_err g_vars v_n g_data]; try reflexivity; try assumption; change (2^31) with 2147483648; change (2^24) with 16777216 in Hsec; lia).
+    cbn [g_st g_vars g_lim g_buf g_data g_dlen g_ws g_now g_err img app rev String.eqb Ascii.eqb Bool.eqb].
+    reflexivity.
+  - (* allocate *)
+    rewrite alloc_eq by (try assumption; change (2^23) with 8388608 in Hh; try lia).
+    destruct (find_space (N.to_nat (h + need + 2)) (mark u (sec_of ow) (N.to_nat (cnt_of ow)) false) need 0 0) as [n'|]; [|reflexivity].
+    destruct (sector_limit <=? n' + need) eqn:Elim; [reflexivity|].
+    subst K.
+    rewrite (tail_eq _ n') by (cbn [g_err g_vars v_n g_data]; try reflexivity; try assumption;
+                               unfold sector_limit in Elim; change (2^23) with 8388608 in Elim; change (2^31) with 2147483648; lia).
+    cbn [g_st g_vars g_lim g_buf g_data g_dlen g_ws g_now g_err img app rev String.eqb Ascii.eqb Bool.eqb].
+    reflexivity.
+Qed.
+
+(* ---------- ReadSector ---------- *)
+Definition interp_read (s : st) (x z : N) : option rres :=
+  match run1 C14gen.ReadSector RFin (init s x z [] 0) with
+  | RFin t σ =>
+      if g_err σ then Some REOF                      (* io.EOF / io.ErrUnexpectedEOF from the two reads *)
+      else if String.eqb t "return nil, ErrNoSector" then Some RNoSector
+      else if String.eqb t "return nil, ErrNoData" then Some RNoData
+      else if String.eqb t "return nil, ErrSectorNegativeLength" then Some RNegative
+      else if String.eqb t "return nil, ErrTooLarge" then Some RTooLarge
+      else if String.eqb t "return" then Some (ROk (g_data σ))
+      else None
+  | _ => None
+  end.
+
+(* the four checks IN ORDER, with their constants, the seek offset and the LimitReader length *)
+Theorem interp_read_eq s x z :
+  x < 32 -> z < 32 ->
+  rd32 (img s) (4096 * sec_of (getN (offs s) (idx x z))) < 2^32 ->        (* the file holds bytes *)
+  interp_read s x z = Some (read_sector s x z).
+Proof.
+  intros Hx Hz Hw. destruct s as [o t u h f]. cbn [offs img] in Hw.
+  unfold interp_read, read_sector, read_at, init. cbv zeta. cbn [offs img].
+  set (ow := getN o (idx x z)) in *. set (len := rd32 f (4096 * sec_of ow)) in *.
+  pose proof (sec_of_lt ow) as Hsec. pose proof (cnt_of_lt' ow) as Hcnt. change (2^24) with 16777216 in Hsec.
+  unfold C14gen.ReadSector. lstep.
+  rewrite !N2Z.id. unfold c14_ReadSector_loc_arg, elem. fold ow. rewrite tie_loc. cbn [fst snd].
+  rewrite tie_no_sector. destruct (sec_of ow =? 0) eqn:Es; [reflexivity|].
+  rewrite tie_seek_r by (change (2^31) with 2147483648; lia). rewrite Zlt0_ofN, N2Z.id.
+  rewrite tie_limit by exact Hcnt. rewrite N2Z.id.
+  destruct ((4096 * cnt_of ow <? 4) || (fsize f <? 4096 * sec_of ow + 4)) eqn:E1; [reflexivity|].
+  fold len. rewrite tie_no_data by exact Hw. destruct (len =? 0) eqn:E2; [reflexivity|].
+  rewrite tie_negative by exact Hw. destruct (2^31 <=? len) eqn:E3; [reflexivity|].
+  assert (Hl : len < 2^31) by lia.
+  rewrite tie_too_long by assumption. destruct (4096 * cnt_of ow <? len) eqn:E4; [reflexivity|].
+  rewrite tie_make_len by exact Hl. rewrite Zlt0_ofN, N2Z.id.
+  replace (4096 * cnt_of ow - 4 <? len) with (4096 * cnt_of ow - 4 <? len) by reflexivity.
+  replace (fsize f <? 4096 * sec_of ow + 4 + len) with (fsize f <? 4096 * sec_of ow + 4 + len) by reflexivity.
+  destruct ((4096 * cnt_of ow - 4 <? len) || (fsize f <? 4096 * sec_of ow + 4 + len)) eqn:E5; reflexivity.
+Qed.
+
+(* ---------- ExistSector, PadToFullSector ---------- *)
+Definition interp_exist (s : st) (x z : N) : option bool :=
+  match run1 C14gen.ExistSector RFin (init s x z [] 0) with RBool b => Some b | _ => None end.
+
+Theorem interp_exist_eq s x z : x < 32 -> z < 32 -> getN (offs s) (idx x z) < 2^32 ->
+  interp_exist s x z = Some (exist_sector s x z).
+Proof.
+  intros Hx Hz Ho. destruct s as [o t u h f]. cbn [offs] in Ho.
+  unfold interp_exist, exist_sector, init. cbn [offs]. unfold C14gen.ExistSector. lstep.
+  rewrite !N2Z.id. unfold elem. rewrite N.mod_small by exact Ho. rewrite tie_exist by exact Ho. reflexivity.
+Qed.
+
+Definition interp_pad (s : st) : option (st * list wr) :=
+  match run1 C14gen.PadToFullSector RFin (init s 0 0 [] 0) with
+  | RFin t σ => if g_err σ then None else if String.eqb t "return nil" then Some (g_st σ, g_ws σ) else None
+  | _ => None
+  end.
+
+Theorem interp_pad_eq s : fsize (img s) < 2^63 -> interp_pad s = Some (pad s).
+Proof.
+  intros Hf. destruct s as [o t u h f]. cbn [img] in Hf. change (2^63) with 9223372036854775808 in Hf.
+  unfold interp_pad, pad, init. cbv zeta. cbn [offs tss used hwm img]. unfold C14gen.PadToFullSector. lstep.
+  rewrite (ws64 (Z.of_N (fsize f))) by lia. rewrite tie_pad_cond, tie_padding.
+  destruct (fsize f mod 4096 =? 0); cbn [negb]; [reflexivity|].
+  rewrite Zlt0_ofN, N2Z.id. reflexivity.
+Qed.
+
+(* ---------- CreateWriter (a closed computation) ---------- *)
+Definition interp_create : option st :=
+  match run1 C14gen.CreateWriter RFin
+          (mkist (Build_st (PositiveMap.empty N) (PositiveMap.empty N) (PositiveMap.empty bool) 2 [])   (* new(Region); ghost hwm = 2 *)
+                 vars0 (Some 0) 0 [] [] 0 [] false 0) with
+  | RFin t σ => if g_err σ then None else if String.eqb t "return r, nil" then Some (g_st σ) else None
+  | _ => None
+  end.
+
+Theorem interp_create_eq : interp_create = Some create.
+Proof. vm_compute. reflexivity. Qed.
+
+(* ---------- Load ---------- *)
+Definition load_body : list sem_stmt :=
+  match nth_error C14gen.Load 7 with Some (SRange _ _ b) => b | _ => [] end.
+Definition ustep (o : nmap) := fun (u : bmap) (i : nat) => let w := getN o (N.of_nat i) in
+  if sec_of w =? 0 then u else mark u (sec_of w) (N.to_nat (cnt_of w)) true.
+
+(* the occupancy loop: every header entry in index order; `o != 0` skips, otherwise the run is marked *)
+Lemma range_eq k o t h f pos lim buf dat dlen ws nw : forall l u r,
+  exists r', range_loop l Vv (sq (fun s k => exec call1 s RFin k) load_body) k
+               (mkist (Build_st o t u h f) r pos lim buf dat dlen ws false nw)
+           = k (mkist (Build_st o t (fold_left (ustep o) l u) h f) r' pos lim buf dat dlen ws false nw).
+Proof.
+  induction l as [|j l IH]; intros u r; cbn [range_loop fold_left]; [exists r; reflexivity|].
+  destruct r as [vx vz vneed vn vnow vsec vnum vlength vsize vi vo vs vv voffset vtimestamp].
+  unfold load_body, C14gen.Load. cbn [nth_error].
+  pose proof (sec_of_lt (getN o (N.of_nat j))) as Hsec. pose proof (cnt_of_lt' (getN o (N.of_nat j))) as Hcnt.
+  change (2^24) with 16777216 in Hsec.
+  peel. lstep0. unfold c14_Load_loc_arg, elem. rewrite tie_loc. cbn [fst snd].
+  subst K. peel. rewrite exec_if by reflexivity. lazy beta iota delta [look getv g_vars v_o].
+  rewrite tie_load_cond.
+  assert (Hu : ustep o u j = if sec_of (getN o (N.of_nat j)) =? 0 then u
+                             else mark u (sec_of (getN o (N.of_nat j))) (N.to_nat (cnt_of (getN o (N.of_nat j)))) true) by reflexivity.
+  rewrite Hu. clear Hu.
+  destruct (sec_of (getN o (N.of_nat j)) =? 0) eqn:Es; cbn [negb].
+  - cbn [sq]. subst K. cbn [sq]. apply IH.
+  - peel. rewrite exec_for by reflexivity.
+    set (sj := sec_of (getN o (N.of_nat j))) in *. set (cj := cnt_of (getN o (N.of_nat j))) in *.
+    set (rb := mkvars vx vz vneed vn vnow vsec vnum vlength vsize vi (Z.of_N sj) (Z.of_N cj) (elem o (N.of_nat j)) voffset vtimestamp).
+    set (σb := mkist (Build_st o t u h f) rb pos lim buf dat dlen ws false nw).
+    match goal with |- context [for_loop ?fu Vi ?hi ?bd ?K0 ?S0] =>
+      assert (Hloop : for_loop fu Vi hi bd K0 S0 =
+                      K0 (set_vars (set_st σb (st_used (g_st σb) (mark u (sj + 0) (Z.to_nat (Z.of_N cj)) true))) (setv rb Vi (Z.of_N cj))))
+        by (apply (mark_loop_s call1 RFin K0 "r.sectors[o+i] = true" true σb rb sj cj eq_refl eq_refl eq_refl
+                     ltac:(change (2^31) with 2147483648; lia) (Z.to_nat (Z.of_N cj)) 0 u ltac:(lia)));
+      rewrite Hloop; clear Hloop end.
+    rewrite N.add_0_r. replace (Z.to_nat (Z.of_N cj)) with (N.to_nat cj) by lia.
+    subst K. cbn [sq]. apply IH.
+Qed.
+
+(* Load on a file whose position is 0; the high-water mark (ghost) is recomputed by the model's load_hwm *)
+Definition interp_load (f : file) : option lres :=
+  match run1 C14gen.Load RFin
+          (mkist (Build_st (PositiveMap.empty N) (PositiveMap.empty N) (PositiveMap.empty bool) 2 f)
+                 vars0 (Some 0) 0 [] [] 0 [] false 0) with
+  | RFin t σ => if g_err σ then Some LErrShort
+                else if String.eqb t "return r, nil" then Some (LOk (st_hwm (g_st σ) (load_hwm (offs (g_st σ)))))
+                else None
+  | _ => None
+  end.
+
+Lemma load_split : C14gen.Load = firstn 7 C14gen.Load ++ [SRange Vv "for _, v := range r.offsets { for _, v := range v" load_body; SRet "return r, nil"].
+Proof. reflexivity. Qed.
+
+Theorem interp_load_eq f : interp_load f = Some (load f).
+Proof.
+  unfold interp_load, load, run1, run. rewrite load_split. rewrite sq_app.
+  unfold C14gen.Load. cbn [firstn].
+  match goal with |- context [sq ?ff [SRange ?v ?t ?b; ?r] ?kk] => set (K2 := sq ff [SRange v t b; r] kk) end.
+  lstep.
+  change (0 + 4096) with 4096. change (4096 + 4096) with 8192.
+  destruct (fsize f <? 4096) eqn:E1.
+  { assert ((fsize f <? 8192) = true) as -> by lia. reflexivity. }
+  destruct (fsize f <? 8192) eqn:E2; [reflexivity|].
+  subst K2. cbn [sq exec g_err]. unfold c14_Load_sector, c14_Load_sector_1. change (Z.to_N 0) with 0. change (Z.to_N 1) with 1.
+  unfold load_used, load_tab. fold (tab_read f 0). fold (tab_read f 4096). fold (ustep (tab_read f 0)).
+  generalize (seq 0 1024). intros l1024.
+  match goal with |- context [range_loop ?l Vv ?b ?k0 ?s0] =>
+    assert (Hr : exists r', range_loop l Vv b k0 s0 =
+                 k0 (mkist (Build_st (tab_read f 0) (tab_read f 4096)
+                                     (fold_left (ustep (tab_read f 0)) l (setB (setB (PositiveMap.empty bool) 0 true) 1 true)) 2 f)
+                           r' (Some 8192) 0 [] [] 0 [] false 0)) by (apply (range_eq k0)) end.
+  destruct Hr as [r' Hr].
+  rewrite Hr. cbn [sq exec g_err g_st st_hwm offs tss used img String.eqb Ascii.eqb Bool.eqb].
+  reflexivity.
+Qed.
